@@ -127,7 +127,12 @@ def build_tbl(
             real, imag = utils.match_defaults(
                 metadata, argv, 2, [AS.Float(0.0)]
             )
-            return AS.Complex(complex(real.value, imag.value))
+            try:
+                return AS.Complex(complex(real.value, imag.value))
+            except OverflowError:
+                raise error.UnsuspectedHangeulArithmeticError(
+                    metadata, "정수가 실수로 나타내기에 너무 큽니다."
+                ) from None
 
         argv = utils.check_type(metadata, argv, AS.String)
         utils.check_arity(metadata, argv, 1)
